@@ -3,6 +3,7 @@ package mj
 import (
 	"errors"
 	"fmt"
+	"github.com/CloudyKit/jet/v6"
 	"reflect"
 	"strconv"
 )
@@ -23,6 +24,12 @@ type Recipe struct {
 }
 
 // ---- zoo types ----
+
+// RendWrite renders itself by writing its text through Runtime.Write, the escaping writer: a value with
+// rendering logic of its own is still a rendered value (Runtime.Writer would be the documented raw bypass).
+type RendWrite struct{ S string }
+
+func (x RendWrite) Render(r *jet.Runtime) { r.Write([]byte(x.S)) }
 
 type User struct {
 	Name   string
@@ -217,6 +224,8 @@ func Build(r Recipe) interface{} {
 			m[k] = Build(r.Elems[i])
 		}
 		return m
+	case "renderer-write":
+		return RendWrite{S: r.S}
 	case "map[string]user": // every key holds the User of that name
 		m := map[string]User{}
 		for i, k := range r.Keys {
